@@ -143,6 +143,10 @@ class PM:
                 raise AnalysisError(f"cannot parse {p}: {e}") from e
             mi = ModuleInfo(name, str(p.relative_to(self.root)), tree, src, is_pkg=is_pkg)
             self.modules[name] = mi
+        import os
+        if os.environ.get("VERIF_NO_ALPHA") != "1":
+            from . import alpha
+            self.alpha_report = alpha.normalise(self.modules, self.PKG)
         for mi in self.modules.values():
             self._index_module(mi)
 
